@@ -476,7 +476,7 @@ func genC06(t *rapid.T) C06Case {
 		Infix:   rapid.Bool().Draw(t, "infix"),
 		Mask:    rapid.IntRange(0, 15).Draw(t, "mask"),
 		Undef:   rapid.Bool().Draw(t, "undef"),
-		Events:  pickW(t, "events", 3, 1, 1),
+		Events:  pickW(t, "events", 6, 2, 2, 1),
 		Binds:   []int{rapid.IntRange(0, 1000).Draw(t, "bind0"), rapid.IntRange(0, 1000).Draw(t, "bind1")},
 		NilMaps: rapid.IntRange(0, 5).Draw(t, "nilmaps") == 0,
 	}
